@@ -1,7 +1,12 @@
 (* C03 - Handshakes answer only fresh, outstanding challenges.
    Statements about Model/Handler.v (validated against the real handler by the correspondence run of
    ./check C03).  [tick c h now d] is the state after the implicit tick of a step (expired timers
-   fired); every theorem is closed by [exact] of a lemma of Proofs/HandlerB_*.v. *)
+   fired); every theorem is closed by [exact] of a lemma of Proofs/HandlerB_*.v.
+   A step - the tick and the handler of the event - runs with the clock of the environment set to the
+   time of the step: [with_clock c now] (the clock is what the session cache reads to decide whether a
+   session has expired; the component [cfg_clock] of the [c] passed to [step] is overwritten, never
+   read).  Where a theorem names a handler function applied inside the step, it is therefore applied to
+   [with_clock c now]. *)
 From Coq Require Import List NArith Bool.
 From Discv5V Require Import Model.Handler Proofs.HandlerB_Base Proofs.HandlerB_Frame Proofs.HandlerB_Session
   Proofs.HandlerB_Auth Proofs.HandlerB_Step Proofs.HandlerB_Fresh Proofs.HandlerB_Examples.
@@ -53,7 +58,9 @@ Print Assumptions C03_challenge_unique_reachable.
 
 (* replay_no_effect: processing the same handshake packet again right away (whatever the first copy
    did: accepted, rejected, bad signature, no challenge) creates or re-keys no session and reports
-   nothing: the sessions are those left by the implicit tick, the outputs are the tick's. *)
+   nothing: the sessions are those left by the implicit tick, the outputs are the tick's - datagrams,
+   RequestFailed and ExpiredSessions (the addresses of sessions the tick purged because they had
+   expired) only ([quiet_out]). *)
 Theorem C03_replay_no_effect :
   forall c h from src n aad sg eph eph_ok rec ct now d now2 d2 h1 o1 h2 o2,
   ChallUniq h ->
@@ -109,9 +116,15 @@ Proof. exact whoareyou_needs_inflight. Qed.
 Print Assumptions C03_whoareyou_needs_inflight.
 
 (* single_handshake_per_request: if the request the WHOAREYOU refers to has already been answered with
-   a handshake (rc_hs_sent), the step sends no datagram at all - in particular no second handshake -,
-   fails the request (RequestFailed for an application request) and does not put it back; no session
-   is created. *)
+   a handshake (rc_hs_sent), the step sends no datagram at all - in particular no second handshake -:
+   beyond the outputs of the implicit tick it emits only RequestFailed and ExpiredSessions
+   ([failed_out]; failing the request removes the peer's session, and Handler::fail_session purges the
+   expired sessions and reports their addresses before it does so).  It fails the request
+   (RequestFailed for an application request) and does not put it back: the new state is that of
+   fail_request, run under the clock of the step ([with_clock c now]); no session is created.
+   (The model takes the same branch for a contact whose key type admits no session keys ([c_ed]:
+   Session::encrypt_with_header fails); the repaired proof files state the lemma for [rc_hs_sent]
+   only, which is the case the property is about.) *)
 Theorem C03_single_handshake_per_request :
   forall c h from n idn seq cd now d h1 na r,
   let s0 := tick c h now d in
@@ -120,7 +133,8 @@ Theorem C03_single_handshake_per_request :
   let res := step c h (EvInbound from (PWho n idn seq cd)) now d in
   (forall o, In o (snd res) -> In o (outs s0) \/ failed_out o) /\
   (rc_ext r = true -> In (OEvent (HRequestFailed (rc_rid r) ERR_INVALID_REMOTE_PACKET)) (snd res)) /\
-  fst res = hs (fail_request c (if fix_d6 c then remove_expected (with_hs s0 h1) from else with_hs s0 h1) r
+  fst res = hs (fail_request (with_clock c now)
+                  (if fix_d6 c then remove_expected (with_hs s0 h1) from else with_hs s0 h1) r
                   ERR_INVALID_REMOTE_PACKET true) /\
   SessD h (fst res).
 Proof. exact single_handshake_per_request. Qed.
